@@ -277,9 +277,24 @@ def _struct(spec, ctx, R):
 def _reject(spec, ctx, R):
     rng = gen.rng_for(spec["seed"], "c08rej", spec["idx"])
     n = int(rng.integers(2, spec["maxn"] + 1))
-    k = spec["idx"] % 5
+    k = spec["idx"] % 6
     fns = {"tridiagonalize": R.tridiagonalize.tridiagonalize, "eigendecomposition": R.eigen.quaternion_eigendecomposition,
            "eigenvalues": R.eigen.quaternion_eigenvalues, "eigenvectors": R.eigen.quaternion_eigenvectors}
+    if k == 5:
+        # Hermitian symmetry violated in ONE specific place only (diagonal vector part, a single entry, a real part, ...)
+        from .c20 import _non_herm_structured
+        for lab, A in _non_herm_structured(rng, n).items():
+            ctx.distinct("reject:" + lab, A)
+            A0 = refq.fa(A).copy()
+            for name, f in fns.items():
+                try:
+                    f(A)
+                    raised = False
+                except Exception:
+                    raised = True
+                ctx.check("reject:non_hermitian", raised, site=name, tags=["structured:" + lab])
+                ctx.check("input_unchanged", np.array_equal(refq.fa(A), A0), site=name)
+        return
     if k in (0, 1):
         H, _ = refq.hermitian_with_eigs(rng, _eigs(rng, "simple", n))
         S = refq.randq(rng, n, n)
